@@ -273,11 +273,36 @@ def d2(cx: Cx, ob: Ob) -> None:
             continue
         s = cx.summary(handler, ob.id)
         conv = ("param", fn.params[0].name)
-        calls = [(c, ev) for c, ev, _ in s.calls("expand_pair") if op(c[1]) == "attr" and c[1][1] == conv]
+        calls = [(c, ev, cctx) for c, ev, cctx in s.calls("expand_pair") if op(c[1]) == "attr" and c[1][1] == conv]
         if not calls:
             ob.undecide(f"{fw}: handler does not call converter.expand_pair")
             continue
-        c, ev = calls[0]
+        # a helper that repairs the greedy prefix group branch by branch: every branch must be the first-delimiter split
+        P_, I_ = ("param", "prefix"), ("param", "identifier")
+        dterm_ = ("attr", conv, "delimiter")
+        branchy = [x for x in calls if op(x[0][2][0] if x[0][2] else None) == "item" and callee_name(x[0][2][0][1]) == "partition" and op(x[0][2][0][1][1]) == "attr" and x[0][2][0][1][1][1] == P_]
+        if branchy and len(branchy) == len(calls):
+            okall = True
+            for c, ev, cctx in calls:
+                a, b = (list(c[2]) + [None, None])[:2]
+                Pp = a[1]
+                found_t = any(g.kind == "guard" and g.a == ("item", Pp, ("const", 1)) and g.b is True for g in cctx.guards)
+                found_f = any(g.kind == "guard" and g.a == ("item", Pp, ("const", 1)) and g.b is False for g in cctx.guards)
+                ob.site(f"{where(handler, ev.line)} {handler.qualname}", f"expand_pair({show(a)[:40]}, {show(b)[:50]})")
+                good = Pp[2] == (dterm_,) and is_const(a[2], 0) and ((found_t and concat_parts(b) == [("item", Pp, ("const", 2)), dterm_, I_]) or (found_f and b == I_))
+                if not good:
+                    okall = False
+                    ob.violate(
+                        handler.qualname,
+                        where(handler, ev.line),
+                        f"the {fw} handler repairs the greedy prefix group with `{show(b)[:60]}` on a branch that is not decided by whether the delimiter was FOUND in the group: when the group ends with the delimiter the swallowed part is empty and the delimiter that belongs to the identifier is dropped",
+                        witness="GET /GO::a must expand ('GO', ':a'), not ('GO', 'a')",
+                        detail="resplit-shape",
+                    )
+            if okall:
+                ob.site(f"{handler.where} {handler.qualname}", "branch-wise re-split at the first delimiter of the prefix group")
+            continue
+        c, ev, _ = calls[0]
         a, b = (list(c[2]) + [None, None])[:2]
         ob.site(f"{where(handler, ev.line)} {handler.qualname}", f"expand_pair({show(a)[:50]}, {show(b)[:50]})")
         P, I = ("param", "prefix"), ("param", "identifier")
